@@ -46,6 +46,7 @@
 From ASModel Require Import Base State Orderings_gen Step Run Progress Hist Local Inv InvTl InvProto InvStep Sum StepCases.
 From ASModel Require Import GenDefs Gen1 Gen2 Gen EnvDefs Env4 Env AccDefs Acc1 Acc2 Acc3 Acc4 Acc5 Acc6 Acc7 Acc.
 From ASModel Require Import ProtDefs Prot1 Prot11 Prot16 Prot Typed LinDefs Lin2 Lin Safe1 Safe2 Safe7 Safe8 Safe Main GenLen.
+From ASModel Require Import Stale StaleInv.
 
 Theorem C03_fast_confirm : forall cf s l c v j x,
   let n := own_node l in
@@ -130,3 +131,26 @@ Print Assumptions C03_writes_form_chain.
 Print Assumptions C03_load_linearizable.
 Print Assumptions C03_generation_unique.
 Print Assumptions C03_load_linearizable_len.
+
+(** ** With stale first reads of the fast path ([Stale.step_stale], see Props/C01.v):
+    the value a load returns is still one the container held between call and return - a stale
+    first read is never what the load returns unless the confirming read saw it again. *)
+Theorem C03_load_linearizable_stale cf inits progs sched :
+  RunOKS cf inits progs sched ->
+  let s0 := init_state inits progs in
+  forall t i cm c h pa pb xa tb xb,
+  nth_error (t_prog (thr s0 t)) (N.to_nat i) = Some cm -> is_load_of cm c h ->
+  (pa <= pb)%nat ->
+  nth_error sched pa = Some (t, xa) ->
+  t_status (thr (StS cf s0 sched pa) t) = Running -> t_stack (thr (StS cf s0 sched pa) t) = [] ->
+  t_cmdi (thr (StS cf s0 sched pa) t) = i ->
+  nth_error sched pb = Some (tb, xb) ->
+  t_cmdi (thr (StS cf s0 sched pb) t) = i -> t_cmdi (thr (StS cf s0 sched (S pb)) t) = i + 1 ->
+  exists v, (match cm with
+             | CLoad _ _ => exists d, hnd (StS cf s0 sched (S pb)) h = HGuard v d
+             | _ => hnd (StS cf s0 sched (S pb)) h = HOwned v
+             end) /\
+    exists k, (pa + 1 <= k <= pb + 1)%nat /\ mem (sh (StS cf s0 sched k)) (LStore c) = v.
+Proof. exact (StaleInv10.C03_load_linearizable_stale cf inits progs sched). Qed.
+
+Print Assumptions C03_load_linearizable_stale.
